@@ -704,17 +704,20 @@ class BaseTaskPool:
             `PoolStillUnlocked`: The pool has not been locked yet.
         """
         self.lock()
-        not_cancelled_meta_tasks = (
-            task
-            for task_set in self._group_meta_tasks_running.values()
-            for task in task_set
+        # A cancelled meta task must not cut the waiting for the others short.
+        meta_results = await gather(
+            *self._meta_tasks_cancelled,
+            *(
+                task
+                for task_set in self._group_meta_tasks_running.values()
+                for task in task_set
+            ),
+            return_exceptions=True,
         )
-        with suppress(CancelledError):
-            await gather(
-                *self._meta_tasks_cancelled,
-                *not_cancelled_meta_tasks,
-                return_exceptions=return_exceptions,
-            )
+        if not return_exceptions:
+            for result in meta_results:
+                if isinstance(result, Exception):
+                    raise result
         self._meta_tasks_cancelled.clear()
         self._group_meta_tasks_running.clear()
         await gather(
